@@ -26,6 +26,7 @@ type Engine struct {
 	typeIDs         map[string]int64
 	typeByID        map[int64]types.Type
 	candEnable      map[string]Term
+	kindIDs         map[string]int64
 	allowLoopInline bool
 	funcs           map[string]*ssa.Function // specKey -> function
 	loadSecs        float64
@@ -56,7 +57,7 @@ func loadEngine(repo string, overlay map[string][]byte) (*Engine, error) {
 	prog, spkgs := ssautil.AllPackages(pkgs, ssa.InstantiateGenerics|ssa.GlobalDebug)
 	prog.Build()
 	e := &Engine{prog: prog, fset: prog.Fset, pkgs: pkgs, spkgs: spkgs, byName: map[string]*ssa.Package{},
-		typeIDs: map[string]int64{}, typeByID: map[int64]types.Type{}, candEnable: map[string]Term{}, funcs: map[string]*ssa.Function{}}
+		typeIDs: map[string]int64{}, typeByID: map[int64]types.Type{}, kindIDs: map[string]int64{}, candEnable: map[string]Term{}, funcs: map[string]*ssa.Function{}}
 	for _, p := range prog.AllPackages() {
 		if strings.HasPrefix(p.Pkg.Path(), "github.com/protobom/protobom/pkg") {
 			if strings.HasSuffix(p.Pkg.Path(), "fakes") {
@@ -71,6 +72,15 @@ func loadEngine(repo string, overlay map[string][]byte) (*Engine, error) {
 	}
 	for fn := range ssautil.AllFunctions(prog) {
 		if e.inScope(fn) {
+			if fn.TypeParams().Len() > 0 && len(fn.TypeArgs()) == 0 {
+				continue // generic template; instantiations are verified
+			}
+			if pf := prog.Fset.Position(fn.Pos()).Filename; strings.HasSuffix(pf, ".pb.go") && !strings.HasPrefix(fn.Name(), "Get") {
+				continue
+			}
+			if strings.HasSuffix(prog.Fset.Position(fn.Pos()).Filename, "_test.go") || strings.Contains(prog.Fset.Position(fn.Pos()).Filename, "fakes/") {
+				continue
+			}
 			k := specKey(fn)
 			if old, ok := e.funcs[k]; ok {
 				// prefer the declared function over wrappers
@@ -126,9 +136,17 @@ func (f *Frame) bindLoopInvs() {
 }
 
 // verifyFunc generates the VC for one function under its contract.
-func (e *Engine) verifyFunc(fn *ssa.Function, classes map[string]bool) *VC {
+func (e *Engine) verifyFunc(fn *ssa.Function, classes map[string]bool) (vc *VC) {
 	name := fnDisplayName(fn)
-	vc := newVC(e, name, classes)
+	vc = newVC(e, name, classes)
+	defer func() {
+		if r := recover(); r != nil {
+			vc.unsupported("engine panic: %v", r)
+			if os.Getenv("GOVC_DEBUG") != "" {
+				panic(r)
+			}
+		}
+	}()
 	f := &Frame{vc: vc, fn: fn, fname: name, root: true}
 	f.spec = e.specs.funcSpec(fn)
 	st := &State{heap: map[string]Term{}, alloc: vc.A0, reach: True, ghost: map[string]Term{}}
@@ -144,6 +162,9 @@ func (e *Engine) verifyFunc(fn *ssa.Function, classes map[string]bool) *VC {
 		f.assumeWF(st, v)
 		bindings = append(bindings, v)
 	}
+	f.entry = st
+	f.vals = map[ssa.Value]Val{}
+	e.assumeTypeInvs(f, st)
 	if recv := fn.Signature.Recv(); recv != nil && len(params) > 0 {
 		if _, ok := recv.Type().Underlying().(*types.Pointer); ok {
 			// implicit precondition: methods are called on non-nil receivers
@@ -422,4 +443,26 @@ func matchKey(pat, k string) bool {
 		return strings.HasPrefix(k, strings.TrimSuffix(pat, "*"))
 	}
 	return pat == k
+}
+
+// assumeTypeInvs: every message object that exists at entry satisfies the
+// declared type invariants (the "valid input value" precondition).
+func (e *Engine) assumeTypeInvs(f *Frame, st *State) {
+	vc := f.vc
+	for i, ti := range e.specs.typeinvs {
+		pkg := e.typesPkgByName(ti.Pkg)
+		if pkg == nil {
+			continue
+		}
+		o := pkg.Scope().Lookup(ti.Type)
+		if o == nil {
+			vc.unsupported("typeinv: unknown type %s.%s", ti.Pkg, ti.Type)
+			continue
+		}
+		self := Term{fmt.Sprintf("self!ti%d", i), SInt}
+		env := &SpecEnv{f: f, pkg: pkg, params: map[string]Val{}, pre: st, spec: &FuncSpec{Name: "typeinv " + ti.Type}, qn: 1000 * (i + 1)}
+		env.bound = map[string]Val{"self": scalar(types.NewPointer(o.Type()), self)}
+		body := env.evalBool(ti.Expr, st, nil)
+		vc.fact(Forall([]Term{self}, Imp(And(Lt(Zero, self), Lt(self, vc.A0)), body)))
+	}
 }
